@@ -63,6 +63,19 @@ static size_t flatten(const iovector_view& w, uint8_t* out)
 }
 static bool eq(const uint8_t* a, const uint8_t* b, size_t n) { for (size_t i = 0; i < TMAX; i++) { if (i >= n) break; if (a[i] != b[i]) return false; } return true; }
 static inline size_t mn(size_t a, size_t b) { return a < b ? a : b; }
+// number of source elements that contribute at least one byte to the first (front) / last (back) `r` bytes, and whether the
+// vector has zero-length elements (the implementation hands those out as empty pieces, which also occupy a slot)
+static int pieces_needed(const iovec* iov, int cnt, size_t r, bool back, bool* has_zero)
+{
+    int n = 0; size_t left = r; *has_zero = false;
+    for (int k = 0; k < NEL; k++) {
+        if (k >= cnt) break;
+        int i = back ? cnt - 1 - k : k;
+        if (iov[i].iov_len == 0) *has_zero = true;
+        if (left > 0 && iov[i].iov_len > 0) { n++; left -= mn(left, iov[i].iov_len); }
+    }
+    return n;
+}
 
 extern "C" {
 void harness_view()
@@ -105,7 +118,9 @@ void harness_view()
     uint8_t slots = nondet_u8(); ASSUME(slots <= NEL);
     iovec* oa = iov_array(2, slots);
     iovector_view out(oa, slots);
+    bool hz; int need = pieces_needed(v.iov, v.cnt, mn(n, T), false, &hz);
     ssize_t r = w.extract_front(n, &out);
+    if (!hz && slots >= need) CHECK(r >= 0, "extract_front(view) succeeds when the output has a slot for every piece of the requested prefix");
     if (r >= 0) {
         CHECK((size_t)r == mn(n, T), "extract_front(view) returns min(bytes, total)");
         uint8_t ob[TMAX + 1]; size_t to = flatten(out, ob);
@@ -133,7 +148,9 @@ void harness_view()
     uint8_t slots = nondet_u8(); ASSUME(slots <= NEL);
     iovec* oa = iov_array(2, slots);
     iovector_view out(oa, slots);
+    bool hz; int need = pieces_needed(v.iov, v.cnt, mn(n, T), true, &hz);
     ssize_t r = w.extract_back(n, &out);
+    if (!hz && slots >= need) CHECK(r >= 0, "extract_back(view) succeeds when the output has a slot for every piece of the requested suffix");
     if (r >= 0) {
         CHECK((size_t)r == mn(n, T), "extract_back(view) returns min(bytes, total)");
         uint8_t ob[TMAX + 1]; size_t to = flatten(out, ob);
